@@ -128,9 +128,79 @@ pub fn party_fixtures(seed: u64) -> (Party, Party) {
     (Party::new(seed, "alice", "alicepw"), Party::new(seed, "bob", "bobpw"))
 }
 
+/// Sinks of bounded capacity (`&mut [u8]`, `Cursor<&mut [u8]>`): a write that finds no room left accepts 0 bytes. For every
+/// capacity around the chunk boundaries, each of the four operations returns Ok exactly when everything fitted (and then
+/// the sink holds the complete output); otherwise an error, with a prefix of the complete output in the sink.
+pub fn bounded_sink_cases(rep: &Report, tag: &str) {
+    use rayon::prelude::*;
+    const CSZ: usize = 65536;
+    let seed = rep.seed;
+    let ids = idents(seed);
+    let p = plaintext(seed ^ 0xb0a, 2 * CSZ + 300);
+    let e = derive32(seed, "bounded-e");
+    let pay = derive32(seed, "bounded-pay");
+    let salt = derive32(seed, "bounded-salt");
+    let kf = r::write_key_file(&ids[0].sk, &ids[1].pk, &e, &pay, &p, &[CSZ, CSZ, 300]).unwrap();
+    // the password-mode subjects run scrypt per call: fewer capacities there
+    let tkey = derive32(seed, "bounded-tkey");
+    let tf = r::write_chunks(&tkey, &r::PASS_MAGIC, &p, &[CSZ, CSZ, 300]);
+    let subjects: Vec<(&str, Subject, Vec<u8>, Vec<u8>)> = vec![
+        ("key_decrypt", Subject::KeyDec { r: hx(&ids[1].sk), r_pub: hx(&ids[1].pk) }, kf.clone(), p.clone()),
+        ("chunk decryption (password-mode associated data)", Subject::TinyDec { key: hx(&tkey), aad: hx(&r::PASS_MAGIC), cs: CSZ as u32 }, tf.clone(), p.clone()),
+        ("key_encrypt", Subject::KeyEnc { s: hx(&ids[0].sk), s_pub: hx(&ids[0].pk), r_pub: hx(&ids[1].pk), e: hx(&e), payload: hx(&pay) }, p.clone(), kf.clone()),
+        ("chunk encryption (password-mode associated data)", Subject::TinyEnc { key: hx(&tkey), aad: hx(&r::PASS_MAGIC), cs: CSZ as u32 }, p.clone(), tf.clone()),
+    ];
+    let mut jobs = vec![];
+    for (si, (_, _, _, full)) in subjects.iter().enumerate() {
+        let n = full.len();
+        let mut caps = vec![0usize, 1, 4, 36, 131, 132, 133, 164, CSZ - 1, CSZ, CSZ + 1, CSZ + 31, CSZ + 32, CSZ + 33, CSZ + 164, 2 * CSZ - 1, 2 * CSZ, 2 * CSZ + 1, 2 * CSZ + 64, n - 301, n - 300, n - 17, n - 16, n - 1, n, n + 1, n + 1000];
+        caps.retain(|&c| c <= n + 1000);
+        caps.sort();
+        caps.dedup();
+        for c in caps {
+            for cursor in [false, true] {
+                jobs.push((si, c, cursor));
+            }
+        }
+    }
+    jobs.par_iter().for_each(|&(si, cap, cursor)| {
+        rep.eval(1);
+        let (name, sub, input, full) = &subjects[si];
+        rep.nontrivial(format!("bounded-sink-{}-{}-{}", si, cap, cursor).as_bytes());
+        let mut store = vec![0xEEu8; cap];
+        let mut src: &[u8] = input;
+        let (res, written) = if cursor {
+            let mut cur = std::io::Cursor::new(&mut store[..]);
+            let r0 = run_rw(sub, &mut src, &mut cur);
+            let w = cur.position() as usize;
+            (r0, w)
+        } else {
+            let mut sl: &mut [u8] = &mut store[..];
+            let r0 = run_rw(sub, &mut src, &mut sl);
+            let left = sl.len();
+            (r0, cap - left)
+        };
+        let case = json!({"kind":"bounded-sink","subject":name,"capacity":cap,"cursor":cursor});
+        let fits = cap >= full.len();
+        if let Res::Panic(m) = &res {
+            rep.violation(&format!("{}/bounded-sink", tag), case, format!("{} into a sink of {} bytes panicked: {}", name, cap, m));
+        } else if res.is_ok() != fits {
+            rep.violation(
+                &format!("{}/bounded-sink", tag),
+                case,
+                format!("{} into a {} of {} bytes ({} bytes of output in all) returned {} with {} bytes in the sink: {}", name, if cursor { "Cursor<&mut [u8]>" } else { "&mut [u8]" }, cap, full.len(), res.brief(), written, if fits { "everything fits, it must succeed" } else { "the output does not fit: success reported although part of it was dropped" }),
+            );
+        } else if store[..written] != full[..written.min(full.len())] || written > full.len() {
+            rep.violation(&format!("{}/bounded-sink", tag), case, format!("{} into a sink of {} bytes: the {} bytes in the sink are not a prefix of the complete output", name, cap, written));
+        }
+    });
+    rep.extra("bounded_sink_cases", json!(jobs.len()));
+}
+
 pub fn run(rep: &Report) {
     let seed = rep.seed;
     rep.set_rule("E-ENV fault enumeration: for every call index k of every explored run, each fault of the menu (read: Interrupted, Other; write: Ok(0), Interrupted, Other; flush: Interrupted, Other) is injected at k (fault budget 1) on top of short-read/short-write schedules within the stated budget; every execution is checked against the oracle, failing ones are re-run with the fault replaced by the default answer (prefix clause). distinct non-trivial = distinct (subject, input, tape) executions that contain at least one non-default answer");
+    rep.rule_add("Bounded sinks (&mut [u8], Cursor): 27 capacities around the record boundaries x 4 operations: Ok exactly when everything fitted, else an error and a prefix.");
     rep.rule_add("CLI faults (missing directory, /dev/full, closed pipe, RLIMIT_FSIZE, directory as input) and CLI partial reads (stdin in pieces at a boundary set of offsets; byte by byte).");
     rep.assume("fault budget 1 per execution (2 on the smallest scopes in the thorough tier: an interruption followed by another fault); after a hard fault the operation has returned; Interrupted is never injected twice in a row at one position");
     rep.assume("data values from seed-derived alphabets");
@@ -332,6 +402,7 @@ pub fn run(rep: &Report) {
 
     cli_level(rep);
     cli_partial_reads(rep);
+    bounded_sink_cases(rep, "C10");
     rep.set_exhaustive(true);
 }
 
@@ -565,6 +636,10 @@ fn cli_case(cmd: &Cmd, files: &[(String, Vec<u8>)]) -> Result<(), String> {
 }
 
 pub fn replay(rep: &Report, case: &Value) {
+    if case["kind"] == "bounded-sink" {
+        bounded_sink_cases(rep, "C10");
+        return;
+    }
     if case["kind"] == "cli" {
         let cmd: Cmd = serde_json::from_value(case["cmd"].clone()).unwrap();
         let files: Vec<(String, Vec<u8>)> = case["files"].as_array().unwrap().iter().map(|f| (f[0].as_str().unwrap().to_string(), unhx(f[1].as_str().unwrap()))).collect();
